@@ -230,7 +230,7 @@ def replay_file(ctx, wpath):
     json.dump({"Replace": rep}, open(ov, "w"))
     env = goenv()
     env["VERIF_WITNESS"] = wpath
-    cmd = ["go", "test", "-v", "-vet=off", "-count=1", "-overlay", ov, "-run", "^TestVerifReplay$", "-timeout", "120s", "./" + job.rel]
+    cmd = ["go", "test", "-v", "-vet=off", "-count=1", "-overlay", ov, "-run", "^TestVerifReplay$", "-timeout", "40s" if rec.get("id") == "terminates-within-the-step-bound" else "120s", "./" + job.rel]
     try:
         r = subprocess.run(cmd, cwd=job.load_dir, env=env, capture_output=True, text=True, timeout=300)
         out = r.stdout + r.stderr
@@ -238,6 +238,11 @@ def replay_file(ctx, wpath):
         out = "VERIF-REPLAY timeout"
     m = re.search(r"VERIF-REPLAY (.*)", out)
     kind, vid = rec["kind"], rec["id"]
+    if vid == "terminates-within-the-step-bound":
+        # bounded termination: natively the run must not finish either (the test binary is killed by its -timeout)
+        if not m and ("test timed out" in out or "VERIF-REPLAY timeout" in out):
+            return True, "native run did not terminate within the test timeout"
+        return False, "native run terminated: " + (m.group(1) if m else out[-300:])
     if not m:
         # process exit (log.Fatal / os.Exit) or build failure
         if kind == "fatal" and ("exit status" in out or "FAIL" in out) and "build failed" not in out and "cannot" not in out.split("\n")[0]:
